@@ -513,6 +513,13 @@ def gen_scenarios(ctx):
     m0 = rng.choice([1, 2])
     scn(4096 + m0 * 2048, 4096, [1, rng.randrange(5, 9), 16], ns2add=rng.choice([0, 3]),
         append={"P": 7, "nbatch": 4096})
+    # --- worker shares at exact multiples of NBATCH: i*CHUNK_SIZE == k*NBATCH (ceil / int at equality) ---
+    for _ in range(4 if ctx.thorough() else 2):
+        nb1 = rng.choice([2304, 3000, 4096])
+        p1 = rng.randrange(2, 8)
+        k1 = rng.randrange(1, max(2, 40000 // (p1 * nb1) + 1))
+        ns1 = min(40000, p1 * nb1 * k1 + rng.choice([0, 1, p1 - 1]))
+        scn(ns1, nb1, [1, p1, rng.randrange(2, 9)], ns2add=rng.choice([0, 2]))
     # --- light stream: 8 channels, CAR: many (ns, nbatch, P) positions ---
     n_light = 60 if ctx.thorough() else 14
     nbs = [2304, 3000, 4096, 2560, 6556, 2100, 3333]
